@@ -15,6 +15,7 @@ import (
 	"strings"
 	"sync"
 	"sync/atomic"
+	"time"
 
 	"github.com/grailbio/base/errors"
 	"github.com/grailbio/bigslice"
@@ -36,6 +37,7 @@ type Spec struct {
 	Mask      int    // for value-addressed sites: the value bit(s) that identify the target row(s)
 	Exclusive bool   // the Map of the healthy program carries the bigslice.Exclusive pragma
 	Both      bool   // layout "buffer": place the target row (index Target) in both shards
+	Gate      string // "" | "peer-running" | "peer-done": forced interleaving of the failing shard with the other shard (see gate)
 	Msg       string // the user's message
 }
 
@@ -49,6 +51,87 @@ type caseState struct {
 	mu      sync.Mutex
 	locs    map[string]int     // where (classified call stack) the failure fired
 	scans   map[int][][]string // scan site: per shard, the rows seen by each callback invocation that returned nil
+
+	// gates (reset before every run): the user functions of the two shards
+	// coordinate through these; the workers of verifsystem are in this process
+	peerStarted  int32 // the task of the shard that does not fail is running (its reader has been called)
+	peerDone     int32 // the reader of the shard that does not fail has returned EOF
+	retryDone    int32 // the reader of the failing shard has returned EOF after the last transient failure
+	gateWaits    int32 // times a function waited at a gate
+	gateTimeouts int32 // ... and gave up (the run then continues ungated)
+}
+
+// gateTimeout bounds every wait at a gate, so that a placement in which the
+// two tasks cannot run side by side degrades to the ungated behaviour.
+const gateTimeout = 20 * time.Second
+
+func (c *caseState) resetGate() {
+	atomic.StoreInt32(&c.peerStarted, 0)
+	atomic.StoreInt32(&c.peerDone, 0)
+	atomic.StoreInt32(&c.retryDone, 0)
+}
+
+func (c *caseState) wait(flag *int32) {
+	atomic.AddInt32(&c.gateWaits, 1)
+	deadline := time.Now().Add(gateTimeout)
+	for atomic.LoadInt32(flag) == 0 {
+		if time.Now().After(deadline) {
+			atomic.AddInt32(&c.gateTimeouts, 1)
+			return
+		}
+		time.Sleep(time.Millisecond)
+	}
+}
+
+// limit is the number of failures a transient cell delivers in one run.
+func (s *Spec) limit() int64 {
+	if s.Pers == "twice" {
+		return 2
+	}
+	return 1
+}
+
+// gateBeforeFail is called by the failing shard's function when it is at the
+// target. Gate "peer-done": the first failure happens only after the other
+// shard's task has read all its input (control order).
+func (s *Spec) gateBeforeFail() {
+	c := &table[s.Case]
+	if atomic.LoadInt64(&c.fired) != 0 {
+		return
+	}
+	switch s.Gate {
+	case "peer-done":
+		c.wait(&c.peerDone)
+	case "peer-running":
+		// the peer's task must have started (and be waiting at its gate)
+		c.wait(&c.peerStarted)
+	}
+}
+
+// gateReader is called by the source reader of every shard at every call.
+// Gate "peer-running": the other shard's task -- already started, i.e. already
+// registered as a user of the combine buffers -- reads its first row only after
+// the failing shard has delivered all its transient failures AND its re-run has
+// read all its input: the failing attempt exits while its peer is still running.
+func (s *Spec) gateReader(shard, pos int, eof bool) {
+	c := &table[s.Case]
+	if s.Gate == "" {
+		return
+	}
+	if shard == s.Shard {
+		if eof && atomic.LoadInt64(&c.fired) >= s.limit() {
+			atomic.StoreInt32(&c.retryDone, 1)
+		}
+		return
+	}
+	if eof {
+		atomic.StoreInt32(&c.peerDone, 1)
+		return
+	}
+	atomic.StoreInt32(&c.peerStarted, 1)
+	if s.Gate == "peer-running" && pos == 0 {
+		c.wait(&c.retryDone)
+	}
 }
 
 var table [64]caseState
@@ -56,6 +139,9 @@ var table [64]caseState
 func (c *caseState) reset() {
 	atomic.StoreInt64(&c.reached, 0)
 	atomic.StoreInt64(&c.fired, 0)
+	atomic.StoreInt32(&c.gateWaits, 0)
+	atomic.StoreInt32(&c.gateTimeouts, 0)
+	c.resetGate()
 	c.mu.Lock()
 	c.locs = map[string]int{}
 	c.scans = map[int][][]string{}
@@ -270,10 +356,14 @@ func build(s *Spec) bigslice.Slice {
 			default: // the call that would deliver row Target
 				at = *pos <= s.Target && s.Target < *pos+len(ks) && *pos < n
 			}
-			if at && s.trip() {
-				return 0, s.fail()
+			if at {
+				s.gateBeforeFail()
+				if s.trip() {
+					return 0, s.fail()
+				}
 			}
 		}
+		s.gateReader(shard, *pos, *pos >= n)
 		if *pos >= n {
 			return 0, sliceio.EOF
 		}
@@ -332,8 +422,11 @@ func build(s *Spec) bigslice.Slice {
 			default:
 				at = before <= s.Target && s.Target < before+len(ks)
 			}
-			if at && s.trip() {
-				return s.fail()
+			if at {
+				s.gateBeforeFail()
+				if s.trip() {
+					return s.fail()
+				}
 			}
 			return nil
 		})
